@@ -29,7 +29,7 @@ class Check(PropertyCheck):
 
     def rule(self):
         return ("inputs (random diagrams, bundled blocks) x all 8 include_* combinations x random colour/font/stroke "
-                "strings x override sizes x five entry points; non-trivial = base output with at least one geometry "
+                "strings x override sizes x five entry points, inputs incl. quoted texts, tags and legends; non-trivial = base output with at least one geometry "
                 "element, distinct by (input)")
 
     def rand_settings(self, b, s, d):
@@ -163,6 +163,11 @@ class Check(PropertyCheck):
         n = self.scale(150, 2500) * boost
         texts = ["+--+\n|ab|\n+--+ *-->", ""] + [gen.random_diagram(self.rng, 20, 6) for _ in range(n)]
         texts += gen.bundled_blocks()[: self.scale(20, 200)]
+        # every channel of the input has to come out the same through every entry point: quoted texts, tags, legends
+        import props.c15 as c15
+        texts += [c15.gen_input(self.rng).replace("{", "(") for _ in range(n // 3)]
+        texts += [gen.nested_boxes([["{a}"], [self.rng.choice(["lbl", '"q-|"', "{b,w}"])]]) +
+                  self.rng.choice(["", "\n# Legend:\na = {fill:red}\nb = {stroke:blue}\n"]) for _ in range(n // 6)]
         return self.oracle(texts)
 
     def replay_case(self, case):
